@@ -12,9 +12,19 @@ ID="$1"; TIER="${2:-quick}"; shift; shift || true
 BIN="$VERIF/.bin/check.$$"
 GBIN="$VERIF/.bin/gopki.$$"
 trap 'rm -f "$BIN" "$GBIN"' EXIT
-cp /repo/go.sum "$VERIF/mc/go.sum" 2>/dev/null
-( cd "$VERIF/mc" && go build -o "$BIN" ./cmd/check ) || { echo "HARNESS-ERROR: building the checker against /repo failed"; exit 2; }
-( cd /repo && go build -o "$GBIN" . ) || { echo "HARNESS-ERROR: building gopki failed"; exit 2; }
+REPO="${VERIF_REPO:-/repo}"
+export VERIF_REPO="$REPO"
+if [ "$REPO" = /repo ]; then
+  cp /repo/go.sum "$VERIF/mc/go.sum" 2>/dev/null
+  ( cd "$VERIF/mc" && go build -o "$BIN" ./cmd/check ) || { echo "HARNESS-ERROR: building the checker against /repo failed"; exit 2; }
+else
+  # another copy of the repository (used by tools/seedmatrix.sh): same module, different replace target
+  sed "s#=> /repo#=> $REPO#" "$VERIF/mc/go.mod" > "$VERIF/mc/go.alt.$$.mod"; cp "$REPO/go.sum" "$VERIF/mc/go.alt.$$.sum"
+  ( cd "$VERIF/mc" && go build -modfile="go.alt.$$.mod" -o "$BIN" ./cmd/check ); rc=$?
+  rm -f "$VERIF/mc/go.alt.$$.mod" "$VERIF/mc/go.alt.$$.sum"
+  [ $rc = 0 ] || { echo "HARNESS-ERROR: building the checker against $REPO failed"; exit 2; }
+fi
+( cd "$REPO" && go build -o "$GBIN" . ) || { echo "HARNESS-ERROR: building gopki failed"; exit 2; }
 export VERIF_GOPKI_BIN="$GBIN"
 if [ "${1:-}" = "--replay" ]; then
   "$BIN" -p "$ID" -tier "$TIER" -replay "$2"; exit $?
